@@ -840,12 +840,27 @@ impl<'a> VisitMut for Rw<'a> {
             }
             n += 1;
         }
+        // T5 (patterns): a closure parameter that is a tuple pattern `|(a, b)| body` -> `|__cp<n>| { let (a, b) = __cp<n>; body }`
+        // (this Verus accepts only variables as closure parameters; binding the same pattern first thing in the body
+        // is what the parameter pattern means)
+        let mut pat_lets: Vec<Stmt> = Vec::new();
+        let mut n2 = 0;
+        for p in c.inputs.iter_mut() {
+            if let Pat::Tuple(_) = p {
+                let id = Ident::new(&format!("__cp{}", n2), Span::call_site());
+                let pat = p.clone();
+                pat_lets.push(parse_quote!(let #pat = #id;));
+                *p = parse_quote!(#id);
+                self.site("T5-pattern");
+            }
+            n2 += 1;
+        }
         let k = self.diverge;
         self.diverge += 1;
         let lit = LitInt::new(&k.to_string(), Span::call_site());
         if closure_is_diverging(&c.body) {
             let body = (*c.body).clone();
-            *c.body = parse_quote!({ __vx_diverge!(#lit); #body });
+            *c.body = parse_quote!({ __vx_diverge!(#lit); #(#pat_lets)* #body });
             self.site("T5-diverge");
             return;
         }
@@ -855,9 +870,9 @@ impl<'a> VisitMut for Rw<'a> {
         *c.body = match body {
             Expr::Block(b) if b.attrs.is_empty() && b.label.is_none() => {
                 let stmts = &b.block.stmts;
-                parse_quote!({ __vx_closure!(#lit); #(#stmts)* })
+                parse_quote!({ __vx_closure!(#lit); #(#pat_lets)* #(#stmts)* })
             }
-            other => parse_quote!({ __vx_closure!(#lit); #other }),
+            other => parse_quote!({ __vx_closure!(#lit); #(#pat_lets)* #other }),
         };
     }
 
@@ -955,6 +970,21 @@ impl<'a> VisitMut for Rw<'a> {
                     let r = &mc.receiver;
                     self.site("T4-unwrap");
                     replacement = Some(parse_quote!(#r.vx_unwrap()));
+                } else if (m == "contains" || m == "first_index_of") && mc.args.len() == 1 && matches!(mc.args[0], Expr::Tuple(_)) {
+                    // T16: the SDK's `Vec::contains` / `first_index_of` take `impl Borrow<T>`; the model's take `&T`.  A tuple
+                    // passed by value is passed by reference instead (same comparison).
+                    let r = &mc.receiver;
+                    let a = &mc.args[0];
+                    let name = &mc.method;
+                    self.site("T16-borrow");
+                    replacement = Some(parse_quote!(#r.#name(&#a)));
+                } else if m == "to_be_bytes" && mc.args.is_empty() {
+                    // T15: `x.to_be_bytes()` -> `x.vx_to_be_bytes()`: the result type of the std method is `[u8; <anonymous
+                    // const>]`, which an `assume_specification` cannot name; the model trait `VxBeBytes` (fragment idv_ext)
+                    // gives the same method a contract.  Pure renaming.
+                    let r = &mc.receiver;
+                    self.site("T15-be-bytes");
+                    replacement = Some(parse_quote!(#r.vx_to_be_bytes()));
                 } else if m == "require_auth" && mc.args.is_empty() {
                     let env = self.env_expr();
                     let a = &mc.receiver;
